@@ -168,7 +168,13 @@ type idxCallRec struct {
 }
 
 // idxPending: a site whose goals do not follow inside its function but mention only parameters.
+// IdxDeferToActions, when set, tells whether every call of the named function of package rel stands in a
+// grammar action that the action interpreter inlines; first/last-element sites on the function's parameters
+// are then obligations of rule list-index at each of those call sites.
+var IdxDeferToActions func(rel, fn string) bool
+
 type idxPending struct {
+	node  ast.Node
 	w     *idxWalker
 	key   string
 	pos   token.Pos
@@ -1251,7 +1257,7 @@ func (w *idxWalker) site(n ast.Expr, facts []scandfa.Fact) {
 	}
 	msg := fmt.Sprintf("%s can be out of range: not implied by the conditions that dominate it: %s", types.ExprString(n), strings.Join(missing, ", "))
 	if w.shared != nil && w.fnObj != nil {
-		pd := &idxPending{w: w, key: key, pos: n.Pos(), expr: msg, facts: fs}
+		pd := &idxPending{node: n, w: w, key: key, pos: n.Pos(), expr: msg, facts: fs}
 		for _, g := range goals {
 			if !scandfa.Entails(g.g, fs) {
 				pd.goals = append(pd.goals, g.g)
@@ -1295,6 +1301,9 @@ func (pd *idxPending) viaCallers(sh *idxShared) string {
 	}
 	calls := sh.calls[fn]
 	if len(calls) == 0 {
+		if IdxDeferToActions != nil && firstLastForm(pd.node) && IdxDeferToActions(w.rel, fn.Name()) {
+			return "" // the grammar actions inline the function: rule list-index decides the site at every call
+		}
 		return "; no call of the function in the package establishes the bound"
 	}
 	// parameters
@@ -1420,4 +1429,39 @@ func (pd *idxPending) viaCallers(sh *idxShared) string {
 		}
 	}
 	return ""
+}
+
+
+// firstLastForm: x[0], x[len(x)-1], x[1:], x[1:len(x)], x[:len(x)-1] - the forms rule list-index decides.
+func firstLastForm(n ast.Node) bool {
+	same := func(a, b ast.Expr) bool { return types.ExprString(a) == types.ExprString(b) }
+	isLit := func(e ast.Expr, v string) bool {
+		bl, ok := unparenE(e).(*ast.BasicLit)
+		return ok && bl.Value == v
+	}
+	isLen := func(e, x ast.Expr) bool {
+		c, ok := unparenE(e).(*ast.CallExpr)
+		if !ok || len(c.Args) != 1 {
+			return false
+		}
+		id, ok := c.Fun.(*ast.Ident)
+		return ok && id.Name == "len" && same(c.Args[0], x)
+	}
+	isLenMinus1 := func(e, x ast.Expr) bool {
+		b, ok := unparenE(e).(*ast.BinaryExpr)
+		return ok && b.Op == token.SUB && isLen(b.X, x) && isLit(b.Y, "1")
+	}
+	switch x := n.(type) {
+	case *ast.IndexExpr:
+		return isLit(x.Index, "0") || isLenMinus1(x.Index, x.X)
+	case *ast.SliceExpr:
+		if x.Max != nil {
+			return false
+		}
+		if x.Low != nil && isLit(x.Low, "1") && (x.High == nil || isLen(x.High, x.X)) {
+			return true
+		}
+		return x.Low == nil && x.High != nil && isLenMinus1(x.High, x.X)
+	}
+	return false
 }
